@@ -30,6 +30,7 @@ type SemRec struct {
 	Diags  []DiagRec `json:"diags"`
 	Natlog []NatRec  `json:"natlog"`
 	Steps  int       `json:"steps"`
+	Tree   json.RawMessage `json:"tree,omitempty"`
 }
 
 var nativeGoName = map[string]string{
@@ -402,4 +403,95 @@ func (c *Ctx) replaySemCLI(path string, o *SemOpts, every int, timeout time.Dura
 	c.addInt("cli_runs", n)
 	c.addInt("traces_validated_against_impl", n)
 	return n
+}
+
+
+// ---------------------------------------------------------------------------------------------- direction 2
+
+// TraceRun is one recorded run of the real interpreter handed to spec/trace/TraceSem.tla.
+type TraceRun struct {
+	Prog   json.RawMessage `json:"prog"`
+	Stdin  [][]int         `json:"stdin"`
+	Repl   bool            `json:"repl"`
+	Events []TraceEv       `json:"events"`
+	key    string
+}
+
+// recordTraces runs the programs of the given records with event tracing on and returns the recorded runs.
+func (c *Ctx) recordTraces(recs []*SemRec) []*TraceRun {
+	cases := make(chan *Case, 256)
+	go func() {
+		for i, r := range recs {
+			src, err := Render(r.Toks, nil)
+			if err != nil {
+				continue
+			}
+			cases <- &Case{ID: i, Mode: "run", Src: src, Stdin: stdinText(r.Stdin), Repl: r.Repl, Fuel: 2000 + 60*r.Steps, Trace: true}
+		}
+		close(cases)
+	}()
+	runs := make([]*TraceRun, len(recs))
+	c.Pool.Run(cases, func(cs *Case, r *Result) {
+		rec := recs[cs.ID]
+		if r.Crash != "" || r.Panic != "" || r.Fuel || len(r.Trace) == 0 {
+			return // abnormal runs are direction 1's business
+		}
+		st := rec.Stdin
+		if st == nil {
+			st = [][]int{}
+		}
+		runs[cs.ID] = &TraceRun{Prog: rec.Tree, Stdin: st, Repl: rec.Repl, Events: r.Trace, key: rec.Fam + ":" + rec.Key}
+	})
+	var out []*TraceRun
+	for _, r := range runs {
+		if r != nil && len(r.Prog) > 0 {
+			out = append(out, r)
+		}
+	}
+	return out
+}
+
+var reHWM = regexp.MustCompile(`<<"HWM", (\d+), (\d+)>>`)
+
+// validateTraces checks the recorded runs against TraceSem with TLC.  It returns the number of accepted runs; the
+// first run that no behaviour of the specification explains is reported (after direction 1 has had its say).
+func (c *Ctx) validateTraces(name string, runs []*TraceRun) int {
+	if len(runs) == 0 {
+		return 0
+	}
+	accepted := 0
+	for len(runs) > 0 {
+		dir := filepath.Join(c.Work, "tlc_TraceSem")
+		os.MkdirAll(dir, 0755)
+		b, _ := json.Marshal(runs)
+		os.WriteFile(filepath.Join(dir, "traces.json"), b, 0644)
+		res := c.runTLCRaw(TLCJob{Module: "TraceSem", Cfg: "TraceSem.cfg", Workers: 1, Timeout: 30 * time.Minute})
+		m := reHWM.FindStringSubmatch(res.Log)
+		if m == nil {
+			c.infra("trace validation (%s): no acceptance mark in the TLC output: %s", name, clip(res.Err+res.Log, 600))
+			return accepted
+		}
+		hwm, _ := strconv.Atoi(m[1])
+		tr, l := hwm/100000, hwm%100000
+		if tr > len(runs) {
+			accepted += len(runs)
+			break
+		}
+		accepted += tr - 1
+		bad := runs[tr-1]
+		var next interface{} = "end of trace"
+		if l-1 < len(bad.Events) {
+			next = bad.Events[l-1]
+		}
+		if os.Getenv("VERIF_KEEP") != "" {
+			os.WriteFile(filepath.Join(c.Work, fmt.Sprintf("rejected_%d.json", len(c.Viol))), b, 0644)
+			break
+		}
+		c.violation(c.Prop+"|trace|"+name+"|rejected", bad.key, map[string]interface{}{"mode": "trace", "detail": fmt.Sprintf("the specification explains the first %d recorded events of this run but not the next one", l-1),
+			"next_event": next, "events": bad.Events})
+		runs = runs[tr:]
+	}
+	c.addInt("traces_checked_against_spec", int64(accepted))
+	c.addInt("traces_validated_against_impl", int64(accepted))
+	return accepted
 }
